@@ -11,6 +11,7 @@ import an
 import kstorage
 import nf
 import seqctor
+import xlate
 from an import P, F, L, BITS, add, sub, mul, c, cmp, canon, gset, gshow, short
 from terms import show
 
@@ -177,22 +178,24 @@ def run(ctx, chk):
         # ---- extend / Extend / FromIterator ----
         b = m("extend")
         if b:
-            p, _, _ = uncond(chk, "S-extend", "Seq::extend", cfg, b)
-            if p:
-                ok = False
-                fe = [x for x in p.calls if short(x[0]) == "for_each"]
-                if len(fe) == 1:
-                    it, clo = fe[0][1][0], fe[0][1][1]
-                    if it[0] == "call" and short(it[1]) == "into_iter" and it[2] == (P(2),) and clo[0] == "closure" and clo[3] == (P(1),):
-                        cb = [x for x in bio.bodies if x["path"] == clo[1]]
-                        if len(cb) == 1:
-                            cps, _ = an.analyse(cfg, cb[0], policy=an.NoInline())
-                            cr = rets(cps)
-                            if len(cr) == 1 and not cr[0].guards:
-                                pc = [x for x in cr[0].calls if x[0] == "seq::Seq::<A>::push"]
-                                ok = len(pc) == 1 and len(cr[0].calls) == 1 and pc[0][1] == (F(P(1), 0), P(2))
-                chk.ob("S-extend", "Seq::extend", ok, "extend must be iter.into_iter().for_each(|x| self.push(x))", b["span"])
-                nrows += 1
+            # for x in iter { self.push(x) }  (written as a `for` loop or as for_each: the engine presents both as a loop)
+            ps, _ = an.analyse(cfg, b, policy=an.NoInline())
+            conts = [p for p in ps if p.end == "continue"]
+            rs = rets(ps)
+            bad = [p for p in ps if p.end not in ("continue", "return")]
+            ok = False
+            why = "%d iteration paths, %d exits, %d other" % (len(conts), len(rs), len(bad))
+            if len(conts) == 1 and len(rs) == 1 and not bad:
+                src = xlate.iter_source(rs[0])
+                item, _nx = xlate.loop_item(conts[0])
+                oksrc = src == P(2) or an.is_call(src, re.compile(r"IntoIterator>::into_iter$"), (P(2),))
+                pre = [x[3].idx for x in rs[0].calls]
+                body = [x for x in conts[0].calls if x[3].idx not in pre and short(x[0]) != "next"]
+                ok = oksrc and item is not None and len(body) == 1 and body[0][0] == "seq::Seq::<A>::push" and body[0][1] == (P(1), item) and \
+                    not [x for x in rs[0].calls if short(x[0]) not in ("into_iter", "next")] and not rs[0].stores
+                why = "source %s, body %s" % (show(src)[:80] if src else "?", [(short(x[0]), [show(a)[:40] for a in x[1]]) for x in body])
+            chk.ob("S-extend", "Seq::extend", ok, "extend must push every element of the iterator, in order, and do nothing else; found " + why, b["span"])
+            nrows += 1
         b = an.one(chk, "S-extend", bio, "Extend<A> for Seq", name="extend", trait="std::iter::Extend", self_re=SEQ)
         if b:
             p, _, _ = uncond(chk, "S-extend", "Extend<A> for Seq", cfg, b)
